@@ -254,6 +254,18 @@ def spec_enum(a, b):
                 warm=['0, 1, True, False', f'{n}, 0, 1, None', f'{n + 1}, {n + 2}, False, False'], timeout=150, stubs=False)
 
 
+def spec_enum_pair(a, b):
+    """Two enum-valued options (e.g. the two claw_decor_place_* options, whose members come from one enum) over
+    members and non-members, two creations in different keyword orders."""
+    na, nb = ENUM_OPTS[a], ENUM_OPTS[b]
+    params = [('i1', 'int'), ('j1', 'int'), ('i2', 'int'), ('j2', 'int')]
+    body = (f"va = ENUMS['{a}'] + [None]\nvb = ENUMS['{b}'] + [None]\n"
+            f"return check_history([{{'{a}': pick(va, i1), '{b}': pick(vb, j1)}}, {{'{b}': pick(vb, j2), '{a}': pick(va, i2)}}])")
+    return Spec(f'enumpair_{a}_{b}', params, body, setup=SETUP,
+                pre=[f'0 <= i1 <= {na}', f'0 <= i2 <= {na}', f'0 <= j1 <= {nb}', f'0 <= j2 <= {nb}'],
+                warm=['0, 1, 1, 0', '2, 0, 0, 2', f'{na}, 0, 0, {nb}'], timeout=400, stubs=False)
+
+
 def spec_cls(a):
     """Class-valued option a: valid and invalid classes by index, two creations."""
     params = [('i1', 'int'), ('i2', 'int')]
@@ -337,7 +349,8 @@ def specs(tier, seed=0):
         out += [spec_enum('strategy', 'is_debug'), spec_cls('violation_type'), spec_cls('warning_cls_on_decorator_exception'),
                 spec_cls_pair('violation_type', 'violation_door_type'), spec_cls_quad(2),
                 spec_coll('claw_skip_package_names', 13), spec_coll('hint_overrides', 8), spec_tower(),
-                spec_lookalike('is_debug'), spec_lookalike('is_color')]
+                spec_lookalike('is_debug'), spec_lookalike('is_color'),
+                spec_enum_pair('claw_decor_place_func', 'claw_decor_place_type')]
         return out
     out += [spec_bool_pair(a, b) for a, b in pairs]
     out += [spec_triple(a) for a in BOOL_OPTS]
@@ -350,6 +363,8 @@ def specs(tier, seed=0):
     out.append(spec_cls_quad(2))
     out.append(spec_cls_quad(3))
     out += [spec_lookalike(a) for a in BOOL_OPTS]
+    out += [spec_enum_pair('claw_decor_place_func', 'claw_decor_place_type'), spec_enum_pair('strategy', 'violation_verbosity'),
+            spec_enum_pair('claw_decor_place_type', 'strategy')]
     out += [spec_tower(), spec_coll('claw_skip_package_names', 13), spec_coll('hint_overrides', 8),
             spec_coll('claw_skip_package_names', 13, 'is_debug'), spec_coll('hint_overrides', 8, 'is_random')]
     for i, a in enumerate(CLS_OPTS):
